@@ -29,8 +29,10 @@ def crypt_config(password="pw-verif-0123456789", salt="salt-verif-0123456789"):
 
 
 def op_conf(jwt_access=False, jwt_refresh=False, oidc=True, endpoints=None, add_ons=None, extra=None,
-            pinned=True, token_endpoint_authn=None, authz=None, lifetimes=None, alias_kwargs=False):
-    """alias_kwargs: the handler slots that have the same kind of handler reference ONE kwargs dict (what a shared
+            pinned=True, token_endpoint_authn=None, authz=None, lifetimes=None, alias_kwargs=False, sub_func=None):
+    """sub_func: session_params.sub_func (configured subject minters: {type: {"class": .., "kwargs": ..} | {"function": ..}}),
+    handed to the provider as it is (dict order kept); None = the key is absent (built-in minters).
+    alias_kwargs: the handler slots that have the same kind of handler reference ONE kwargs dict (what a shared
     constant in a Python configuration, or a YAML anchor, produces) instead of equal copies"""
     cc = crypt_config() if pinned else copy.deepcopy(CRYPT_CONFIG)
     lt = {"code": 600, "token": 3600, "refresh": 86400}
@@ -114,6 +116,8 @@ def op_conf(jwt_access=False, jwt_refresh=False, oidc=True, endpoints=None, add_
             "id_token": {"class": "idpyoidc.server.token.id_token.IDToken", "kwargs": {}},
         },
     }
+    if sub_func is not None:
+        conf["session_params"]["sub_func"] = sub_func
     if oidc:
         conf["claims_interface"] = {"class": "idpyoidc.server.session.claims.ClaimsInterface", "kwargs": {}}
     if authz is not None:
